@@ -47,4 +47,17 @@ m = {
     "notes": "See DESIGN.md. known_findings.json lists genuine defects (open / fixed).",
 }
 json.dump(m, open(os.path.join(ROOT, "MANIFEST.json"), "w"), indent=1)
+
+# known_findings.json = merge of findings/Cxx.json (one list of entries per property)
+fd = os.path.join(ROOT, "findings")
+allf = []
+if os.path.isdir(fd):
+    for f in sorted(os.listdir(fd)):
+        if f.endswith(".json"):
+            for e in json.load(open(os.path.join(fd, f))):
+                allf.append(e)
+json.dump({
+    "comment": "Genuine defects of seehuhn/go-sfnt found by the checks. status=open: recorded, not repaired (the check prints KNOWN-FINDING and exits 0 for exactly this signature); status=fixed: repaired by the named fix: commit in /repo (suppresses nothing: the violation is reported again if it returns). Assembled from findings/*.json by tools/mkmanifest.py; never written at run time.",
+    "findings": allf,
+}, open(os.path.join(ROOT, "known_findings.json"), "w"), indent=1)
 print("MANIFEST.json: %d checks, %d not claimed" % (len(checks), len(na)))
